@@ -4,6 +4,12 @@
 // The Pearce-Kelly reordering `update_ordering` itself is TRUSTED here (contract: Err = unchanged, Ok = graph untouched).
 // ======================================================================================
 
+// The bounded searches behind `causal_cones` are outside the verifier's subset; its contract (Err exactly when window_reaches) NAMES their
+// answer.  They are pinned by hash: a change to them is a conflict (exit 2: the trusted half of C14 changed), never silently accepted.
+//@ pin src/acyclic.rs | impl<G: Visitable + NodeIndexable> Acyclic<G> where for<'a> &'a G: IntoNeighborsDirected + IntoNodeIdentifiers + GraphBase<NodeId = G::NodeId> | fn future_cone | 3b5763966f
+//@ pin src/acyclic.rs | impl<G: Visitable + NodeIndexable> Acyclic<G> where for<'a> &'a G: IntoNeighborsDirected + IntoNodeIdentifiers + GraphBase<NodeId = G::NodeId> | fn past_cone | a0f613bdef
+//@ pin src/acyclic.rs | - | fn dfs | 8989f1aa0d
+
 //@ item src/algo/mod.rs | - | struct Cycle
 /// An algorithm error: a cycle was found in the graph.
 pub struct Cycle<N>(pub N);
